@@ -72,12 +72,48 @@ pub fn run_isolated(child_args: &[String], total: usize, batch: usize, mem_kib: 
                 Some(st) => format!("child died: {st}"),
             };
             if idx < total {
-                tr.emit(json!({"ev":"Died","idx":idx,"why":why,"input":describe(idx)}));
+                // a death or a stall is only believed when the input, run ALONE with a generous time limit, does it again
+                // (a loaded machine can starve a child for longer than the watchdog's patience)
+                match run_alone(&exe, child_args, idx, mem_kib, (secs_per_input * 6).max(180), &part) {
+                    Some(v) => tr.emit(v),
+                    None => tr.emit(json!({"ev":"Died","idx":idx,"why":why,"input":describe(idx)})),
+                }
             }
             start = idx + 1;
         }
     }
     let _ = std::fs::remove_file(&part);
+}
+
+/// one input in a child of its own; Some(result event) when it completes normally
+fn run_alone(exe: &std::path::Path, child_args: &[String], idx: usize, mem_kib: u64, secs: u64, part: &str) -> Option<Value> {
+    let _ = std::fs::remove_file(part);
+    let cmdline = format!(
+        "ulimit -v {mem_kib}; exec {} {} --child --from {idx} --to {} --part {part}",
+        shell_quote(&exe.display().to_string()),
+        child_args.iter().map(|a| shell_quote(a)).collect::<Vec<_>>().join(" "),
+        idx + 1
+    );
+    let mut child = Command::new("sh").arg("-c").arg(&cmdline).stdout(Stdio::null()).stderr(Stdio::null()).spawn().ok()?;
+    let deadline = Instant::now() + Duration::from_secs(secs);
+    let ok = loop {
+        match child.try_wait().ok()? {
+            Some(st) => break st.success(),
+            None => {
+                if Instant::now() > deadline {
+                    let _ = child.kill();
+                    let _ = child.wait();
+                    break false;
+                }
+                std::thread::sleep(Duration::from_millis(20));
+            }
+        }
+    };
+    if !ok {
+        return None;
+    }
+    let f = std::fs::File::open(part).ok()?;
+    std::io::BufReader::new(f).lines().map_while(Result::ok).filter(|l| l.starts_with('{')).find_map(|l| serde_json::from_str::<Value>(&l).ok())
 }
 
 fn shell_quote(s: &str) -> String {
